@@ -24,7 +24,10 @@ CASE_TYPE = "case"
 CHECK = "check Run.GenOpcodes.operator_precedence"
 MODEL_VIEW = "model_view Run.GenOpcodes.operator_precedence"
 THEOREMS = ["C06_sy", "C06_rpn", "C06_value", "C06_number", "C06_number_Z", "C06_reading_exists", "C06_unique_reading", "C06_unique_value",
-            "C06_wfb", "C06_compat_reference"]
+            "C06_wfb", "C06_compat_reference",
+            "C06_lex_tokens", "C06_lex_join", "C06_text_of_join", "C06_lex_parse", "C06_eval_strip", "C06_lex_value",
+            "C06_lex_value_reading", "C06_lex_spacing", "C06_lex_numfmt"]
+PROOF_HEADER = "From A816 Require Import Properties.C06 Properties.C06Lex."
 RULE = ("expression trees (every operator pair and triple in every grouping, prefix operators in every position, "
         "random trees to depth 6, literals in three bases at boundary magnitudes, bound identifiers, random spacing, "
         "redundant parentheses) rendered in their conventional reading and evaluated by eval_expression_str and through "
@@ -34,9 +37,12 @@ PROVED_NOTE = ("proved for all trees / all integers (induction): shunting_yard o
                "tree is its postfix form, for ANY precedence table satisfying the decidable prec_compatible (discharged each "
                "run on the live OPERATOR_PRECEDENCE by computation); postfix evaluation = tree semantics, errors included; "
                "eval_expression (flat e) = eval e; eval_number of the decimal/0x(any case, leading zeros)/0b rendering of n "
-               "is n; a token list has at most one conventional reading. Correspondence-only: that expression.py computes "
-               "what Model/Expr.v computes, that the parser builds `flat tree` from the text (lexer + _parse_expression are "
-               "not modelled here), and that the assembler contexts use that evaluator.")
+               "is n; a token list has at most one conventional reading; TEXT level (Properties/C06Lex.v): any tree whose "
+               "identifiers are well formed, written out with arbitrary spacing and any literal format, is lexed by the "
+               "expression scanner into exactly its tokens, parsed by _parse_expression into its flat node list, and "
+               "eval_expression_str of the text is the value of the tree; hence spacing, base, padding and letter case of "
+               "literals do not change the result. Correspondence-only: that expression.py / scanner / parser compute what "
+               "the models compute, and that the assembler contexts use that evaluator.")
 EXHAUSTIVE = {"quick": False, "thorough": False}
 SHARD = 250
 MANIFEST = {
